@@ -80,10 +80,11 @@ Definition class_wf (c : cls) : bool :=
   forallb (fun s => match sdef s with DConst j => jscope j | _ => true end) (cslots c) &&
   match cfamily c, cver c with
   | FSco, V21 =>
+    forallb (fun k => negb (mem_ustr (u "id") (constr_names c k))) (ext_constr c ++ ccons c) &&
     match ctype c, find_slot c (u "id") with
-    | Some t, Some s => match skind s with
-                        | KId p V21 => ustr_eqb p (t ++ u "--")
-                        | _ => false
+    | Some t, Some s => match skind s, sdef s with
+                        | KId p V21, DUuid4 => ustr_eqb p (t ++ u "--")
+                        | _, _ => false
                         end
     | _, _ => false
     end
